@@ -58,7 +58,7 @@ def distinct_words(name, seed):
     return None
 
 
-def render(name, a, e, lookups=(), tid=0x33, ts0=1000, nested=(), stray_end=False, stale_start=None, other_thread=None, tables=None):
+def render(name, a, e, lookups=(), tid=0x33, ts0=1000, nested=(), stray_end=False, stale_start=None, other_thread=None, tables=None, ts_rev=False):
     evs = [EV.E(tid, name, 2, args=[e[0], e[3], e[2], e[1]])] if stray_end else []
     if stale_start is not None:      # an earlier START of the same call that never got its END (lost, or the call never returns)
         evs.append(EV.E(tid, name, 1, args=stale_start))
@@ -74,7 +74,10 @@ def render(name, a, e, lookups=(), tid=0x33, ts0=1000, nested=(), stray_end=Fals
     parser = EV.new_traces_parser() if other_thread is None else EV.new_traces_parser(threads_pids={tid: 10, 0x55: 10, 0x56: 11}, pids_names={10: 'a', 11: 'b'})
     if tables is not None:       # the process tables already know some processes (a thread map, earlier records)
         parser = EV.new_traces_parser(threads_pids=dict(tables[0]), pids_names=dict(tables[1]))
-    out = [t for t in parser.feed_generator(EV.realize(evs, ts0=ts0)) if t.ktraces[0].tid == tid and
+    # ts_rev: the records carry DEcreasing timestamps (merged per-CPU buffers with skewed clocks); the properties speak of
+    # stream order, never of timestamp order
+    ts_list = [ts0 + 7 * (len(evs) - i) for i in range(len(evs))] if ts_rev else None
+    out = [t for t in parser.feed_generator(EV.realize(evs, ts0=ts0, ts_list=ts_list)) if t.ktraces[0].tid == tid and
            t.ktraces[0].eventid == EV.eid(name)]
     if len(out) != 1 or out[0].ktraces[0].func_qualifier != 1 or out[0].ktraces[-1].func_qualifier != 2:
         raise Violation(f'call-count:{name}', f'{name}: {len(out)} traces for one START..END window (stray END before it: {stray_end})')
@@ -175,7 +178,7 @@ def prop_decoder(ctx, case):
     de = domains.project(name, 2, e2)
     e2 = [int.from_bytes(de[8 * i:8 * i + 8], 'little') for i in range(4)]
     nested = [SC.junk(0x44, seed, 1), SC.junk(0x44, seed, 2)] + [SC.ev(0x44, n, (seed + i) % 4 if (seed + i) % 4 != 2 else 0, seed, 3 + i) for i, n in enumerate(EV.family_lookalikes(name))]
-    txt2 = guard(render, name, a, e2, lookups, tid=0x44, ts0=999999, nested=nested, stray_end=True)
+    txt2 = guard(render, name, a, e2, lookups, tid=0x44, ts0=999999, nested=nested, stray_end=True, ts_rev=bool(seed & 64))
     sc2 = TP.split_call(txt2)
     if sc2 is None or (sc2[0], sc2[1]) != (cname, params):
         raise Violation(f'call-part-impure:{name}', f'{name}: call part changed with END/tid/timestamps/nested records: {txt!r} vs {txt2!r}')
